@@ -9,10 +9,10 @@ pub fn prop() -> Prop {
     Prop {
         id: "C14",
         level: "model_checking",
-        rule: "unbounded input = every prefix of <=2 (thorough <=3) values over a 5-value alphabet (qualifying object, scalar, empty split, duplicate rows, non-qualifying object) followed by an endless counter stream of qualifying distinct objects, served byte by byte with every byte pulled counted; T in 0..5, S in 0..3 x every subset of {--set, --split-by, --filter, --select, --unique, --only-objects-and-arrays}; horizon 64 KiB; FIFO (file path) variant for a subset; non-trivial = T>=1 and the T-th row is not produced by the last value of the prefix; distinct by construction",
+        rule: "unbounded input = every prefix of <=2 (thorough <=3) values over a 5-value alphabet (qualifying object, scalar, empty split, duplicate rows, non-qualifying object) followed by an endless counter stream of qualifying distinct objects (two kinds: every split item qualifies / every array ends in an item that --filter drops and --unique has seen), served byte by byte with every byte pulled counted; T in 0..5, S in 0..3 x every subset of {--set, --split-by, --filter, --select, --unique, --only-objects-and-arrays}; horizon 64 KiB; FIFO (file path) variant for a subset; non-trivial = T>=1 and the T-th row is not produced by the last value of the prefix; distinct by construction",
         explanation: "a step-wise reference pipeline says which input value produces row S+T and where that value ends; jawk must return Ok with exactly rows S..S+T, must not reach the horizon, and must not pull more than 16 bytes past that value (stdin) / one pipe + BufReader capacity (file)",
         assumptions: COMMON_ASSUMPTIONS.to_vec(),
-        guards: vec!["stopped-inside-endless-tail", "stopped-inside-prefix", "take-zero", "split-stops-mid-array", "unique-drops-before-limit", "fifo"],
+        guards: vec!["tail-arrays-end-in-a-dropped-item", "stopped-inside-endless-tail", "stopped-inside-prefix", "take-zero", "split-stops-mid-array", "unique-drops-before-limit", "fifo"],
         budget_s: (100, 1200),
         single_worker: false,
         run,
@@ -33,14 +33,24 @@ fn alphabet() -> Vec<&'static str> {
     ]
 }
 
-fn counter_tail() -> Vec<u8> {
+/// kind 0: every array item qualifies; kind 1: every array ends in an item that the filter drops
+/// and --unique has seen before (so the stop decision has to come from an item that is not the last)
+fn counter_tail_kind(kind: usize) -> Vec<u8> {
     let mut s = String::new();
     let mut i = 1u64;
     while s.len() < HORIZON + 4096 {
-        s.push_str(&format!("{{\"i\":{i},\"l\":[{},{}]}}\n", 1000 + 2 * i, 1001 + 2 * i));
+        if kind == 0 {
+            s.push_str(&format!("{{\"i\":{i},\"l\":[{},{}]}}\n", 1000 + 2 * i, 1001 + 2 * i));
+        } else {
+            s.push_str(&format!("{{\"i\":{i},\"l\":[{},8]}}\n", 1000 + i));
+        }
         i += 1;
     }
     s.into_bytes()
+}
+
+fn counter_tail() -> Vec<u8> {
+    counter_tail_kind(0)
 }
 
 #[derive(Clone, Copy)]
@@ -165,6 +175,10 @@ fn run(ctx: &mut Ctx) {
     let mut prefixes: Vec<Vec<usize>> = Vec::new();
     crate::explore::seqs_upto(alpha.len(), maxp, |i| prefixes.push(i.to_vec()));
     let (tmax, smax) = (5usize, 3usize);
+    let tail1 = counter_tail_kind(1);
+    let tail1_vals: Vec<(V, usize)> = json::parse_stream(&tail1[..tail1.iter().rposition(|b| *b == b'\n').unwrap() + 1]).unwrap().into_iter().map(|s| (s.v, s.end)).collect();
+    for tk in 0..2usize {
+    let (tail, tail_vals) = if tk == 0 { (&tail, &tail_vals) } else { (&tail1, &tail1_vals) };
     for pidx in &prefixes {
         // prefix text: values separated by single spaces, trailing newline
         let mut ptxt = String::new();
@@ -175,7 +189,7 @@ fn run(ctx: &mut Ctx) {
         let pbytes = ptxt.into_bytes();
         let mut stream: Vec<(V, usize)> = json::parse_stream(&pbytes).unwrap().into_iter().map(|s| (s.v, s.end)).collect();
         let plen = stream.len();
-        for (v, e) in &tail_vals {
+        for (v, e) in tail_vals.iter() {
             if pbytes.len() + e > HORIZON {
                 break;
             }
@@ -186,6 +200,12 @@ fn run(ctx: &mut Ctx) {
                 continue;
             }
             let o = Opts::from_mask(mask);
+            if tk == 1 && !o.split {
+                continue; // without --split-by the two tails are the same stream of qualifying objects
+            }
+            if tk == 1 {
+                ctx.guard("tail-arrays-end-in-a-dropped-item");
+            }
             for s in 0..=smax {
                 for t in 0..=tmax {
                     let exp = expectation(&o, s, t, &stream, plen);
@@ -198,7 +218,7 @@ fn run(ctx: &mut Ctx) {
                     let got = ctx.run(&case);
                     ctx.case_done();
                     ctx.trace_validated();
-                    ctx.state(&(mask, s.min(1), t.min(2), exp.stop_in_tail));
+                    ctx.state(&(mask, s.min(1), t.min(2), exp.stop_in_tail, tk));
                     ctx.transition(&(mask, s, t, plen));
                     let sig = format!("options {:?} S={s} T={t}", o.args(0, 0).iter().filter(|a| !a.starts_with("--take")).map(|a| a.split('=').next().unwrap().to_string()).collect::<Vec<_>>());
                     let Some(stop) = exp.stop_after else {
@@ -261,6 +281,7 @@ fn run(ctx: &mut Ctx) {
                 return;
             }
         }
+    }
     }
     ctx.level_done("stdin:all-prefixes-x-option-subsets-x-S-x-T");
 
